@@ -1500,6 +1500,46 @@ mut("C13", "null_zone_includes_minus_1024", AH, """            if (start_index >
 mut("C13", "null_zone_refinement_border", AH, "                            &Bitvector::from_i16(1024).into_resize_signed(address_val.bytesize()),", "                            &Bitvector::from_i16(1025).into_resize_signed(address_val.bytesize()),", ["R7|null-zone|refinement|above"], "address 1024 removed although outside the zone")
 mut("C13", "SILENT_null_zone_as_range", AH, """                let new_absolute_val = if start_index > -1024 && start_index < 1024 {""", """                let new_absolute_val = if (-1023..=1023).contains(&start_index) {""", [], "same zone as an inclusive range")
 
+# ---------------- mutants for the rules added after seed rounds 6 and 7 (each mirrors the stored seed)
+M.append(("C07", "dequeue_after_processing", {"edits": [
+    {"file": L + "analysis/fixpoint.rs", "find": "        while let Some(priority) = self.worklist.iter().next_back().cloned() {\n            let priority = self.worklist.take(&priority).unwrap();", "replace": "        while let Some(&priority) = self.worklist.last() {"},
+    {"file": L + "analysis/fixpoint.rs", "find": "                non_stabilized_nodes.insert(priority);\n            }\n        }", "replace": "                non_stabilized_nodes.insert(priority);\n            }\n            self.worklist.remove(&priority);\n        }"}],
+    "expect": ["R3|compute_with_max_steps|dequeue-before-processing"], "desc": "priority removed from the worklist after update_node"}))
+mut("C08", "empty_sub_into_extern_subs", L + "analysis/graph.rs", "            } else {\n                self.log_messages.push(LogMessage::new_info(format!(\n                    \"{} contains no blocks\",", "            } else {\n                self.extern_subs.insert(sub.tid.clone());\n                self.log_messages.push(LogMessage::new_info(format!(\n                    \"{} contains no blocks\",", ["R2|extern_subs|filled-from-extern-symbols"], "internal function without blocks entered into extern_subs")
+mut("C15", "clobber_writes_top", L + "analysis/taint/state.rs", """        self.register_taint = self
+            .register_taint
+            .iter()
+            .filter_map(|(register, taint)| {
+                if calling_conv
+                    .callee_saved_register
+                    .iter()
+                    .any(|callee_saved_reg| register == callee_saved_reg)
+                {
+                    Some((register.clone(), *taint))
+                } else {
+                    None
+                }
+            })
+            .collect();""", """        for (register, taint) in self.register_taint.iter_mut() {
+            if !calling_conv.callee_saved_register.contains(register) {
+                *taint = Taint::Top(register.size);
+            }
+        }""", ["R6|register_taint|no-untainted-entries"], "clobbered registers overwritten with Top instead of removed")
+mut("C09", "search_from_entry_block_only", L + "intermediate_representation/project/block_duplication_normalization.rs", """            let mut worklist: Vec<Tid> =
+                sub.term.blocks.iter().map(|blk| blk.tid.clone()).collect();""", """            let mut worklist: Vec<Tid> = sub
+                .term
+                .blocks
+                .first()
+                .map(|blk| vec![blk.tid.clone()])
+                .unwrap_or_default();""", ["R1|generate_sub_tid_to_contained_block_tids_map|search-starts-from-all-blocks"], "block search seeded with the entry block only")
+mut("C14", "may_stack_pointer_counts_as_exact", L + "analysis/function_signature/state/memory_handling.rs", """        if let Some((target, offset)) = address.get_if_unique_target() {
+            if *target == self.stack_id {
+                return offset.try_to_bitvec().ok();
+            }
+        }
+        None""", """        let offset = address.get_relative_values().get(&self.stack_id)?;
+        offset.try_to_bitvec().ok()""", ["R2|get_offset_if_exact_stack_pointer|unique-target"], "exact stack pointer no longer requires a unique target")
+
 for prop, name, spec in M:
     if name.startswith("SILENT_"):
         spec["silent"] = True
